@@ -239,21 +239,22 @@ type Request struct {
 }
 
 type Interp struct {
-	ext     map[string]func([]Value) Value // models of external functions supplied by a rule (by the callee's origin)
-	repo    *Repo
-	plugin  string
-	decls   map[*types.Func]*VFunc
-	or      *Oracle
-	memo    map[string]int // decision memo by symbol within a run
-	tie     bool           // tie decisions of sibling fields/elements together (structure sweep)
-	lines   []Line
-	indent  int
-	depth   int
-	shape   int
-	arities []int
-	preds   map[string]Value
-	stack   map[*ast.FuncDecl]int
-	steps   int
+	ext        map[string]func([]Value) Value // models of external functions supplied by a rule (by the callee's origin)
+	formatData []token.Pos                    // calls of Printer.P whose format argument contains the text of a type
+	repo       *Repo
+	plugin     string
+	decls      map[*types.Func]*VFunc
+	or         *Oracle
+	memo       map[string]int // decision memo by symbol within a run
+	tie        bool           // tie decisions of sibling fields/elements together (structure sweep)
+	lines      []Line
+	indent     int
+	depth      int
+	shape      int
+	arities    []int
+	preds      map[string]Value
+	stack      map[*ast.FuncDecl]int
+	steps      int
 
 	decisions  []Decision
 	registered []Value
@@ -1551,6 +1552,11 @@ func (in *Interp) sprintf(args []Value) VStr {
 	ai := 1
 	for _, p := range f.Parts {
 		if p.Hole != nil {
+			// type text in the format itself: a percent sign inside it (a struct tag) is taken for a verb
+			if m := in.mangledType(p.Hole); m != nil {
+				out = out.concat(holeV(m))
+				continue
+			}
 			out = out.concat(VStr{[]Part{p}})
 			continue
 		}
@@ -1768,6 +1774,16 @@ func (in *Interp) call(fr *Frame, c *ast.CallExpr) Value {
 	case *VSpecial:
 		switch f.Kind {
 		case "printer.P":
+			// P's first argument is a format: type text that arrives there (instead of as an operand of %s) is scanned for verbs,
+			// and the text of a type can contain a percent sign (a struct tag)
+			if fs, ok := args[0].(VStr); ok {
+				for _, part := range fs.Parts {
+					if part.Hole != nil && part.Hole.Kind == "TYPE" {
+						in.formatData = append(in.formatData, c.Pos())
+						break
+					}
+				}
+			}
 			in.emit(in.sprintf(args), c.Pos())
 			return VTuple{}
 		case "printer.In":
@@ -2699,7 +2715,7 @@ func typeArgsKey(args []Value) (string, bool) {
 }
 
 // structTag is the tag of the first field of every struct type of the abstract input space.
-const structTag = `gdv:"1"`
+const structTag = `gdv:"%d"`
 
 // modelledTypesMapMethods: the methods of derive.TypesMap that the interpreter models; every other method declared on
 // *typesMap is interpreted from its source.
@@ -2744,4 +2760,63 @@ func isIdentStr(s string) bool {
 		}
 	}
 	return len(s) > 0
+}
+
+// mangledTag is what fmt makes of structTag when it meets it inside a format.
+const mangledTag = `gdv:"%!d(MISSING)"`
+
+// mangledType: the hole standing for the text of a type, as it comes out when that text is part of a Printf format. The text of
+// a named type, a basic type or a composite of those contains no percent sign; the text of a struct type literal contains its
+// tags, and the abstract input space gives the first field of every struct the tag structTag. So for a type that is (or, its
+// kind never having been examined, may be) a struct type literal the result stands for a different type: the same struct
+// with the tag fmt produced. Returns nil when the text cannot contain a percent sign.
+func (in *Interp) mangledType(h *Hole) *Hole {
+	if h.Kind != "TYPE" {
+		return nil
+	}
+	o, ok := h.Val.(*VOpaque)
+	if !ok || o == nil || o.built || o.attrs["#mangledOf"] != nil {
+		return nil
+	}
+	if o.Kind != "" && o.Kind != "other" && o.Kind != "*types.Struct" {
+		return nil // named, or a literal kind other than struct
+	}
+	if u, ok := o.attrs["Underlying"].(*VOpaque); ok && o.Kind != "*types.Struct" {
+		if u.Kind != "" && u.Kind != "other" && u.Kind != "*types.Struct" {
+			return nil
+		}
+		if u.Kind == "*types.Struct" && !o.notNamed {
+			// a struct behind Underlying(): a literal only if the path established that the type is not a defined type
+			if in.memoAnswer("A:"+o.Origin+":*types.Named") != 1 {
+				return nil
+			}
+		}
+	}
+	if strings.HasPrefix(h.Origin, "bypass:") {
+		return nil
+	}
+	if o.attrs == nil {
+		o.attrs = map[string]Value{}
+	}
+	o.attrs["#percentTag"] = VBool{Known: true, V: true}
+	if m, ok := o.attrs["#mangled"].(*VOpaque); ok {
+		return in.canonHole(&Hole{Kind: "TYPE", Origin: "mangled:" + h.Origin, Val: m})
+	}
+	m := &VOpaque{Origin: "mangled:" + o.Origin, Kind: o.Kind, notNamed: o.notNamed, attrs: map[string]Value{}}
+	for k, v := range o.attrs {
+		if k != "#mangled" && k != "#percentTag" {
+			m.attrs[k] = v
+		}
+	}
+	m.attrs["#mangledOf"] = o
+	o.attrs["#mangled"] = m
+	return in.canonHole(&Hole{Kind: "TYPE", Origin: "mangled:" + h.Origin, Val: m})
+}
+
+// memoAnswer: the answer already given to a decision symbol on this run (-1 if it was not asked).
+func (in *Interp) memoAnswer(sym string) int {
+	if v, ok := in.memo[in.canonSym(sym)]; ok {
+		return v
+	}
+	return -1
 }
